@@ -115,6 +115,17 @@ factorisation of `B` (LAPACK contract: `∏ |U_ii| = |det B|`) -/
 def kll (x : KIn n k ℝ) : ℝ :=
   -(1/2) * (kchi2 x + Real.log ((2 * Real.pi) ^ n * |kdetB x|))
 
+/-- the code's log-determinant loop: `Σ_i log(2π |U_ii|)` over the pivots of the LU factorisation equals
+`log((2π)^n |∏ U_ii|)`, i.e. (LAPACK contract `∏ U_ii = ± det B`) the `log((2π)^n |det B|)` used in `kll` -/
+theorem logdet_sum_eq (u : Fin n → ℝ) (hu : ∀ i, u i ≠ 0) :
+    ∑ i, Real.log (2 * Real.pi * |u i|) = Real.log ((2 * Real.pi) ^ n * |∏ i, u i|) := by
+  have hpi : (2 * Real.pi) ≠ 0 := by positivity
+  rw [Finset.abs_prod, Real.log_mul (pow_ne_zero _ hpi)
+    (Finset.prod_ne_zero_iff.mpr fun i _ => abs_ne_zero.mpr (hu i)), Real.log_pow, Real.log_prod]
+  · simp only [Real.log_mul hpi (abs_ne_zero.mpr (hu _)), Finset.sum_add_distrib, Finset.sum_const,
+      Finset.card_univ, Fintype.card_fin, nsmul_eq_mul]
+  · intro i _; exact abs_ne_zero.mpr (hu i)
+
 /-- a physically valid input: `ivar_i = 1/σ_i²` with `σ_i > 0`, prior variances `λ_j > 0`, any real jitter -/
 structure Phys (x : KIn n k ℝ) (σ : Fin n → ℝ) : Prop where
   sig_pos : ∀ i, 0 < σ i
